@@ -251,6 +251,17 @@ func doGw(o *common.Out, id string, rg *tcpRig, h frontHdr) {
 			o.Fail(id, "handler-reached", "a malformed gateway request (missing service / method / serialize type, or a non-numeric id / type) ran a handler", line)
 		}
 	}
+	if obs != "malformed" {
+		// what the plugins and the authentication are handed is the request as the native protocol would carry it:
+		// the service it is addressed to (header, or else the URL path) and the method
+		wantPath := h.path
+		if wantPath == "" {
+			wantPath = strings.TrimPrefix(h.urlpath, "/")
+		}
+		if !strings.Contains(obs, " path="+hxs(wantPath)+" ") || !strings.Contains(obs, " meth="+hxs(h.meth)+" ") {
+			o.Fail(id, "ingress-differs", fmt.Sprintf("a gateway request addressed to service %q, method %q reached the post-read stage as {%s}", wantPath, h.meth, obs), line)
+		}
+	}
 	rg.drain()
 	o.Case(id, line, obs, true)
 	if obs == "malformed" {
